@@ -24,7 +24,7 @@ def plan(tier, ctx):
     j += fvm.config('C20', 'mstack_2x1', 'mstack.c', 3, 6, 'sc', defines=['NPUSH=1'], spec=S, bounds='2 pushers x1, flusher')
     j += _msig(tier)
     if tier == 'thorough':
-        j += fvm.config('C20', 'lifo_aba3', 'lifo.c', 3, 4, 'sc', defines=['T3'], spec=S, bounds='A->B; three threads', timeout=1200)
+        j += fvm.config('C20', 'lifo_aba3', 'lifo.c', 3, 4, 'sc', defines=['T3'], spec=S, bounds='A->B; three threads', timeout=2400, required=False)
         j += fvm.config('C20', 'lifo_aba', 'lifo.c', 2, 4, 'tso', spec=S, bounds='A->B; x86-TSO', timeout=900)
         j += fvm.config('C20', 'distfifo_reuse', 'distfifo.c', 3, 4, 'tso', defines=['REUSE'], spec=S, bounds='x86-TSO', timeout=1200)
         j += fvm.config('C20', 'mstack_2x2', 'mstack.c', 3, 6, 'sc', defines=['NPUSH=2'], spec=S, bounds='2 pushers x2, flusher', timeout=1800, required=False)
